@@ -248,9 +248,9 @@ impl Outcome {
     }
     pub fn short(&self) -> String {
         match self {
-            Outcome::Ok(d) => format!("Ok({})", &d[..12.min(d.len())]),
-            Outcome::Panic(m) => format!("Panic({})", &m[..60.min(m.len())]),
-            Outcome::Err(m) => format!("Err({})", &m[..60.min(m.len())]),
+            Outcome::Ok(d) => format!("Ok({})", crate::rng::head(d, 12)),
+            Outcome::Panic(m) => format!("Panic({})", crate::rng::head(m, 60)),
+            Outcome::Err(m) => format!("Err({})", crate::rng::head(m, 60)),
             Outcome::Died(m) => format!("Died({})", m),
             o => format!("{:?}", o),
         }
